@@ -267,12 +267,20 @@ def run_mute(params, obs):
     node = run.sim.world.node('B')
     for src in list(node.sources.values()):
         node._kill(src)
-    run.sim.advance(params['before_ms'] * MS)
-    t_req = run.sim.world.now_ns
-    res = run.call('A', 'terminate', dbus.Byte(0))
-    if isinstance(res, Exception):
-        return ['terminate() refused: %s' % res]
-    run.sim.advance((params['idle'] * 1000 + 50) * MS)
+    if params.get('how') == 'idle':
+        # nobody asks: A's own idle timer starts the termination (SESS_TERM at I), and with the peer still silent A must have
+        # closed one idle time later
+        t_req = run.sim.world.now_ns
+        run.sim.advance((2 * params['idle'] * 1000 + 50) * MS)
+        if not any(msg['type'] == 'SESS_TERM' for (msg, _e, _n) in run.wire('A')[0]):
+            problems.append('idle endpoint with a mute peer sent no SESS_TERM within 2 x idle time')
+    else:
+        run.sim.advance(params['before_ms'] * MS)
+        t_req = run.sim.world.now_ns
+        res = run.call('A', 'terminate', dbus.Byte(0))
+        if isinstance(res, Exception):
+            return ['terminate() refused: %s' % res]
+        run.sim.advance((params['idle'] * 1000 + 50) * MS)
     obs['runs'] += 1
     errs = [err for err in run.callback_errors() if err.node == 'A']
     if errs:
@@ -350,6 +358,7 @@ def cases(tier, seed):
             for before in (0, 500):
                 for bundle in (0, 40):
                     out.append(dict(id='mute-%d-%d-%d-%d' % (idle, ka, before, bundle), kind='mute', idle=idle, ka=ka, before_ms=before, bundle=bundle))
+            out.append(dict(id='mute-idle-%d-%d' % (idle, ka), kind='mute', idle=idle, ka=ka, before_ms=0, bundle=0, how='idle'))
     rng = random.Random(seed)
     for idx in range(120 if thorough else 16):
         out.append(dict(id='adapt-%d' % idx, kind='adaptive', seed=seed * 31 + idx,
@@ -395,6 +404,7 @@ def run_case(case):
                  dict(base, idle_b=0, traffic='B just before A idles'))
     elif case['kind'] == 'mute':
         params = {k: case[k] for k in ('idle', 'ka', 'before_ms', 'bundle')}
+        params['how'] = case.get('how', 'request')
         note(run_mute(params, obs), 'mute', params)
     else:
         params = {k: case[k] for k in ('seed', 'seg', 'mru', 'target', 'policy', 'lengths')}
